@@ -46,6 +46,9 @@ type Scenario struct {
 	// Extra goroutines started once the index is armed (copiers etc.). They must
 	// bracket their calls with Gate.ActorCalling / ActorReturned.
 	Extra []func(r *Runner)
+	// AfterOpen is called once the controlled part is over and the gates are
+	// open (the observer is not called any more); e.g. to end the Extra goroutines.
+	AfterOpen func(r *Runner)
 }
 
 type Runner struct {
@@ -200,6 +203,9 @@ func Run(sc *Scenario, obs Observer, final func(r *Runner)) (*Result, error) {
 		uncontrolled = true
 	}
 	gate.Open()
+	if sc.AfterOpen != nil {
+		sc.AfterOpen(r)
+	}
 	select {
 	case <-writersDone:
 	case <-time.After(60 * time.Second):
